@@ -199,6 +199,7 @@ type CLIResult struct {
 	Status         int
 	TimedOut       bool
 	Signal         string
+	Truncated      bool // the capture limit was reached: Stdout / Stderr are incomplete
 }
 
 // CLI runs the binary with the given arguments and stdin.
@@ -207,7 +208,8 @@ func CLI(bin string, args []string, stdin string, dir string, timeout time.Durat
 	cmd.Dir = dir
 	cmd.Stdin = strings.NewReader(stdin)
 	var so, se bytes.Buffer
-	cmd.Stdout, cmd.Stderr = &limitWriter{w: &so, n: 4 << 20}, &limitWriter{w: &se, n: 4 << 20}
+	wo, we := &limitWriter{w: &so, n: 64 << 20}, &limitWriter{w: &se, n: 4 << 20}
+	cmd.Stdout, cmd.Stderr = wo, we
 	cmd.Env = cleanEnv()
 	if err := cmd.Start(); err != nil {
 		return CLIResult{Status: -1, Stderr: "start: " + err.Error()}
@@ -223,6 +225,7 @@ func CLI(bin string, args []string, stdin string, dir string, timeout time.Durat
 		res.TimedOut = true
 	}
 	res.Stdout, res.Stderr = so.String(), se.String()
+	res.Truncated = wo.dropped || we.dropped
 	if ps := cmd.ProcessState; ps != nil {
 		res.Status = ps.ExitCode()
 		if ws, ok := ps.Sys().(syscall.WaitStatus); ok && ws.Signaled() {
@@ -310,9 +313,10 @@ func cleanEnv() []string {
 }
 
 type limitWriter struct {
-	w  *bytes.Buffer
-	n  int
-	mu sync.Mutex
+	w       *bytes.Buffer
+	n       int
+	dropped bool // something was written after the limit had been reached
+	mu      sync.Mutex
 }
 
 func (l *limitWriter) Write(p []byte) (int, error) {
@@ -320,6 +324,8 @@ func (l *limitWriter) Write(p []byte) (int, error) {
 	defer l.mu.Unlock()
 	if l.w.Len() < l.n {
 		l.w.Write(p)
+	} else if len(p) > 0 {
+		l.dropped = true
 	}
 	return len(p), nil
 }
